@@ -135,6 +135,15 @@ fn run_acc_from<V: Acc>(rep: &mut Report, c: &Value, reg0: V) {
                 Obs::Text(s) => {
                     let e = if path == "display_prec" { fmt_expected_p(V::NAME, &pl, false, true) } else { fmt_expected(V::NAME, &pl, path == "debug") };
                     if s != e { bad = true; detail = json!({"observed": s, "expected_text": e}); }
+                    if path == "display_prec" && !bad {
+                        // other precisions are forwarded the same way: 0 (an explicit zero is a precision, not "none") and 5
+                        let isf = <V::S as Scalar>::SC.is_float();
+                        let e0 = format!("[{}]", pl.iter().map(|x| if isf { format!("{:.0}", x) } else { format!("{}", x) }).collect::<Vec<_>>().join(", "));
+                        let e5 = format!("[{}]", pl.iter().map(|x| if isf { format!("{:.5}", x) } else { format!("{}", x) }).collect::<Vec<_>>().join(", "));
+                        let (g0, g5) = (format!("{:.0}", reg), format!("{:.5}", reg));
+                        if g0 != e0 { bad = true; detail = json!({"observed": g0, "expected_text": e0, "flag": "{:.0}"}); }
+                        else if g5 != e5 { bad = true; detail = json!({"observed": g5, "expected_text": e5, "flag": "{:.5}"}); }
+                    }
                 }
                 Obs::Bool(b) => {
                     // PartialEq of a register with itself: true unless a lane is NaN (floats)
